@@ -59,4 +59,293 @@ theorem ReqInv.client_frame {c c' v : Side} {wcv wvc : List Msg} (hi : ReqInv c 
   ⟨hi.nodup, by rw [h1]; exact hi.conn, by rw [h2]; exact hi.pend, by rw [h3]; exact hi.cfg,
    by rw [h3]; exact Nat.le_trans h4 hi.perm, h5, hi.outNodup, hi.outMem⟩
 
+theorem permits_snoc_other (s : Side) (ev : Evt) (h : isConnReq ev = false) :
+    ((s.connQ ++ [ev]).filter isConnReq).length = (s.connQ.filter isConnReq).length := by
+  simp [List.filter_append, List.filter, h]
+
+/-- environment labels, client role -/
+theorem req_client_env (c c' v : Side) (wcv wvc inW' out : List Msg) (l : Lab) (hl : l.internal = false)
+    (hs : stepSide c wvc l = some (c', inW', out)) (hi : ReqInv c v wcv wvc) :
+    inW' = wvc ∧ out = [] ∧ ReqInv c' v wcv wvc := by
+  cases l <;> simp [Lab.internal] at hl <;> simp only [stepSide] at hs
+  case startConnect p w =>
+    split at hs
+    · rename_i hg
+      simp only [Option.some.injEq, Prod.mk.injEq] at hs
+      obtain ⟨rfl, rfl, rfl⟩ := hs
+      simp only [Bool.and_eq_true, decide_eq_true_eq] at hg
+      refine ⟨rfl, rfl, hi.nodup, hi.conn, hi.pend, hi.cfg, ?_, hi.noReqInPortQ, hi.outNodup, hi.outMem⟩
+      simp only [Side.permits, List.filter_append, List.length_append] at hg ⊢
+      simp [List.filter, isConnReq]; omega
+    · simp at hs
+  case takeReq w =>
+    split at hs
+    · split at hs
+      · simp only [Option.some.injEq, Prod.mk.injEq] at hs
+        obtain ⟨rfl, rfl, rfl⟩ := hs
+        exact ⟨rfl, rfl, hi.client_frame rfl rfl rfl (Nat.le_refl _) hi.noReqInPortQ⟩
+      · simp at hs
+    · simp at hs
+  case acceptReq rp lp =>
+    split at hs
+    · simp only [Option.some.injEq, Prod.mk.injEq] at hs
+      obtain ⟨rfl, rfl, rfl⟩ := hs
+      refine ⟨rfl, rfl, hi.client_frame rfl rfl rfl (Nat.le_refl _) ?_⟩
+      intro ev hev; simp only [List.mem_append, List.mem_singleton] at hev
+      rcases hev with h | h
+      · exact hi.noReqInPortQ ev h
+      · subst h; rfl
+    · simp at hs
+  case rejectReq rp np =>
+    split at hs
+    · simp only [Option.some.injEq, Prod.mk.injEq] at hs
+      obtain ⟨rfl, rfl, rfl⟩ := hs
+      refine ⟨rfl, rfl, hi.client_frame rfl rfl rfl (Nat.le_refl _) ?_⟩
+      intro ev hev; simp only [List.mem_append, List.mem_singleton] at hev
+      rcases hev with h | h
+      · exact hi.noReqInPortQ ev h
+      · subst h; rfl
+    · simp at hs
+  case closeReceiver p =>
+    split at hs
+    · simp only [Option.some.injEq, Prod.mk.injEq] at hs
+      obtain ⟨rfl, rfl, rfl⟩ := hs
+      refine ⟨rfl, rfl, hi.client_frame rfl rfl rfl (Nat.le_refl _) ?_⟩
+      intro ev hev; simp only [List.mem_append, List.mem_singleton] at hev
+      rcases hev with h | h
+      · exact hi.noReqInPortQ ev h
+      · subst h; rfl
+    · simp at hs
+  case dropReceiver p =>
+    split at hs
+    · simp only [Option.some.injEq, Prod.mk.injEq] at hs
+      obtain ⟨rfl, rfl, rfl⟩ := hs
+      refine ⟨rfl, rfl, hi.client_frame rfl rfl rfl (Nat.le_refl _) ?_⟩
+      intro ev hev; simp only [List.mem_append, List.mem_singleton] at hev
+      rcases hev with h | h
+      · exact hi.noReqInPortQ ev h
+      · subst h; rfl
+    · simp at hs
+  case dropSender p =>
+    split at hs
+    · simp only [Option.some.injEq, Prod.mk.injEq] at hs
+      obtain ⟨rfl, rfl, rfl⟩ := hs
+      refine ⟨rfl, rfl, hi.client_frame rfl rfl rfl (Nat.le_refl _) ?_⟩
+      intro ev hev; simp only [List.mem_append, List.mem_singleton] at hev
+      rcases hev with h | h
+      · exact hi.noReqInPortQ ev h
+      · subst h; rfl
+    · simp at hs
+  case dropClients =>
+    split at hs
+    · simp only [Option.some.injEq, Prod.mk.injEq] at hs
+      obtain ⟨rfl, rfl, rfl⟩ := hs
+      refine ⟨rfl, rfl, hi.client_frame rfl rfl rfl ?_ hi.noReqInPortQ⟩
+      simp only [Side.permits]; rw [permits_snoc_other c _ rfl]; exact Nat.le_refl _
+    · simp at hs
+  case dropListener =>
+    split at hs
+    · simp only [Option.some.injEq, Prod.mk.injEq] at hs
+      obtain ⟨rfl, rfl, rfl⟩ := hs
+      refine ⟨rfl, rfl, hi.client_frame rfl rfl rfl (Nat.le_refl _) ?_⟩
+      intro ev hev; simp only [List.mem_append, List.mem_map] at hev
+      rcases hev with h | ⟨r, _, h⟩
+      · exact hi.noReqInPortQ ev h
+      · subst h; rfl
+    · simp at hs
+
+theorem core_add {L L' : List Nat} {p : Nat} (hp : L'.Perm (p :: L)) (hnd : L.Nodup) (hnp : p ∉ L) :
+    L'.Nodup ∧ (∀ q, q ∈ L' ↔ (q = p ∨ q ∈ L)) ∧ L'.length = L.length + 1 := by
+  refine ⟨hp.nodup_iff.mpr (List.nodup_cons.mpr ⟨hnp, hnd⟩), fun q => ?_, ?_⟩
+  · rw [hp.mem_iff]; simp
+  · rw [hp.length_eq]; simp
+
+theorem core_remove {L L' : List Nat} {p : Nat} (hp : L.Perm (p :: L')) (hnd : L.Nodup) :
+    L'.Nodup ∧ (∀ q, q ∈ L' ↔ (q ≠ p ∧ q ∈ L)) ∧ L'.length = L.length - 1 := by
+  have h2 := hp.nodup_iff.mp hnd
+  rw [List.nodup_cons] at h2
+  refine ⟨h2.2, fun q => ?_, ?_⟩
+  · rw [hp.mem_iff]; simp only [List.mem_cons]
+    constructor
+    · intro hq; exact ⟨fun h => h2.1 (h ▸ hq), Or.inr hq⟩
+    · rintro ⟨h1, h | h⟩
+      · exact absurd h h1
+      · exact h
+  · rw [hp.length_eq]; simp
+
+/-- the dispatcher of the client side handles a local event -/
+theorem req_client_evt (c v : Side) (wcv wvc : List Msg) (ev : Evt) (e' : Ep) (m : Option Msg)
+    (c' : Side) (hi : ReqInv c v wcv wvc) (h : handleEvt c.ep ev = some (e', m))
+    (hep : c'.ep = e') (hpq : ∀ x ∈ c'.portQ, isConnReq x = false)
+    (hperm : (c'.connQ.filter isConnReq).length + (if isConnReq ev then 1 else 0) = (c.connQ.filter isConnReq).length) :
+    ReqInv c' v (wcv ++ emitList m) wvc := by
+  have hcfg := handleEvt_cfg _ _ _ _ h
+  cases hev : isConnReq ev with
+  | false =>
+    obtain ⟨h1, h2, h3⟩ := handleEvt_client _ _ _ _ h hev
+    simp only [hev, Bool.false_eq_true, if_false, Nat.add_zero] at hperm
+    have hL : reqWhere v.ep (wcv ++ emitList m) wvc = reqWhere v.ep wcv wvc := by
+      simp [reqWhere, reqPorts_append, h3]
+    refine ⟨by rw [hL]; exact hi.nodup, fun q => by rw [hL, hep, h1]; exact hi.conn q,
+            by rw [hL, hep, h2]; exact hi.pend, by rw [hep, hcfg]; exact hi.cfg, ?_, hpq, hi.outNodup, hi.outMem⟩
+    have := hi.perm
+    simp only [Side.permits, hep, hcfg, h2, hperm] at this ⊢; omega
+  | true =>
+    cases ev <;> simp [isConnReq] at hev
+    rename_i p w i
+    simp only [isConnReq, if_true] at hperm
+    obtain ⟨hn, _, _, _, hc⟩ := handleEvt_connectReq _ _ _ _ _ _ h
+    rcases hc with ⟨rfl, h1, h2⟩ | ⟨⟨i', rfl⟩, h1, h2⟩
+    · have hL : reqWhere v.ep (wcv ++ emitList none) wvc = reqWhere v.ep wcv wvc := by simp [emitList]
+      refine ⟨by rw [hL]; exact hi.nodup, fun q => by rw [hL, hep, h1]; exact hi.conn q,
+              by rw [hL, hep, h2]; exact hi.pend, by rw [hep, hcfg]; exact hi.cfg, ?_, hpq, hi.outNodup, hi.outMem⟩
+      have := hi.perm
+      simp only [Side.permits, hep, hcfg, h2] at this ⊢; omega
+    · have hnp : p ∉ reqWhere v.ep wcv wvc := by
+        intro hin; have := (hi.conn p).mpr hin; rw [hn] at this; simp at this
+      have hP : (reqWhere v.ep (wcv ++ emitList (some (Msg.openPort p w i'))) wvc).Perm (p :: reqWhere v.ep wcv wvc) := by
+        simp only [reqWhere, emitList, reqPorts_append, reqPorts, List.append_assoc]
+        exact List.perm_middle
+      obtain ⟨a1, a2, a3⟩ := core_add hP hi.nodup hnp
+      refine ⟨a1, fun q => ?_, ?_, by rw [hep, hcfg]; exact hi.cfg, ?_, hpq, hi.outNodup, hi.outMem⟩
+      · rw [hep, h1, a2, hi.conn]
+      · rw [hep, h2, a3, hi.pend]
+      · have := hi.perm
+        simp only [Side.permits, hep, hcfg, h2] at this ⊢; omega
+
+theorem isCtl_cases (m : Msg) (h : isCtl m = true) :
+    (∃ cp w id, m = .openPort cp w id) ∨ (∃ cp, respPorts [m] = [cp] ∧ reqPorts [m] = []) ∨
+    (isOther m = true ∧ respPorts [m] = [] ∧ reqPorts [m] = []) := by
+  cases m <;> simp [isCtl, isOther, respPorts, reqPorts] at h ⊢
+
+theorem respPorts_cons (m : Msg) (w : List Msg) : respPorts (m :: w) = respPorts [m] ++ respPorts w := by
+  cases m <;> simp [respPorts]
+theorem reqPorts_cons (m : Msg) (w : List Msg) : reqPorts (m :: w) = reqPorts [m] ++ reqPorts w := by
+  cases m <;> simp [reqPorts]
+
+/-- the client side handles the head of its incoming wire -/
+theorem req_client_rx (c v : Side) (wcv rest : List Msg) (m : Msg) (e' : Ep) (em : Emit) (c' : Side)
+    (hi : ReqInv c v wcv (m :: rest)) (hm : isCtl m = true) (h : handleRx c.rxView m = .ok (e', em))
+    (hep : c'.ep = requeue { e' with listenerDropped := c.ep.listenerDropped } em)
+    (hcq : c'.connQ = c.connQ) (hpq : c'.portQ = c.portQ ++ autoEvts em) :
+    ReqInv c' v wcv rest := by
+  have hports : c'.ep.ports = e'.ports := by rw [hep]; rfl
+  have hpend : c'.ep.clientPending = e'.clientPending := by rw [hep]; rfl
+  have hcfg : c'.ep.cfg = e'.cfg := by rw [hep]; rfl
+  rcases isCtl_cases m hm with ⟨cp, w, id, rfl⟩ | ⟨cp, hr, _⟩ | ⟨ho, hr, _⟩
+  · obtain ⟨_, h1, h2, h3, _, h5⟩ := handleRx_openPort _ _ _ _ _ _ h
+    have hL : reqWhere v.ep wcv (Msg.openPort cp w id :: rest) = reqWhere v.ep wcv rest := by
+      simp [reqWhere, respPorts]
+    have hnd := hi.nodup; have hcn := hi.conn; have hpd := hi.pend
+    rw [hL] at hnd hcn hpd
+    refine ⟨hnd, by rw [hports, h1]; exact hcn, by rw [hpend, h2]; exact hpd,
+            by rw [hcfg, h3]; exact hi.cfg, ?_, ?_, hi.outNodup, hi.outMem⟩
+    · have := hi.perm
+      simp only [Side.permits, hcq, hpend, hcfg, h2, h3] at this ⊢; exact this
+    · intro ev hev; rw [hpq] at hev
+      rcases List.mem_append.mp hev with h' | h'
+      · exact hi.noReqInPortQ ev h'
+      · rcases h5 with ⟨_, h6, _⟩ | ⟨_, h6, _⟩ <;> rw [h6] at h' <;> simp at h'
+        subst h'; rfl
+  · obtain ⟨_, h1, h2, _, _, h3, rfl⟩ := handleRx_response _ _ _ _ _ hr h
+    have hP : (reqWhere v.ep wcv (m :: rest)).Perm (cp :: reqWhere v.ep wcv rest) := by
+      simp only [reqWhere]; rw [respPorts_cons, hr]
+      simp only [List.singleton_append, ← List.append_assoc]
+      exact List.perm_middle
+    obtain ⟨a1, a2, a3⟩ := core_remove hP hi.nodup
+    refine ⟨a1, fun q => ?_, ?_, by rw [hcfg, h3]; exact hi.cfg, ?_, ?_, hi.outNodup, hi.outMem⟩
+    · rw [hports, h1, a2]
+      have := hi.conn q; simp only [Side.rxView] at this ⊢; rw [this]
+    · rw [hpend, h2, a3]; have := hi.pend; simp only [Side.rxView] at this ⊢; rw [this]
+    · have := hi.perm
+      simp only [Side.permits, hcq, hpend, hcfg, h2, h3, Side.rxView] at this ⊢; omega
+    · intro ev hev; rw [hpq] at hev; simp [autoEvts] at hev; exact hi.noReqInPortQ ev hev
+  · obtain ⟨h1, h2, _, _, h3, rfl⟩ := handleRx_other _ _ _ _ ho h
+    have hL : reqWhere v.ep wcv (m :: rest) = reqWhere v.ep wcv rest := by
+      simp only [reqWhere]; rw [respPorts_cons, hr]; rfl
+    have hnd := hi.nodup; have hcn := hi.conn; have hpd := hi.pend
+    rw [hL] at hnd hcn hpd
+    refine ⟨hnd, fun q => by rw [hports, h1]; exact hcn q, by rw [hpend, h2]; exact hpd,
+            by rw [hcfg, h3]; exact hi.cfg, ?_, ?_, hi.outNodup, hi.outMem⟩
+    · have := hi.perm
+      simp only [Side.permits, hcq, hpend, hcfg, h2, h3, Side.rxView] at this ⊢; exact this
+    · intro ev hev; rw [hpq] at hev; simp [autoEvts] at hev; exact hi.noReqInPortQ ev hev
+
+theorem autoEvts_noReq (em : List Msg) : ∀ ev ∈ autoEvts em, isConnReq ev = false := by
+  induction em with
+  | nil => simp [autoEvts]
+  | cons m w ih =>
+    cases m <;> simp only [autoEvts] <;> try exact ih
+    intro ev hev; simp only [List.mem_cons] at hev
+    rcases hev with h | h
+    · subst h; rfl
+    · exact ih ev h
+
+/-- internal labels, client role -/
+theorem req_client_int (c c' v : Side) (wcv wvc inW' out : List Msg) (l : Lab)
+    (hs : stepSide c wvc l = some (c', inW', out)) (hi : ReqInv c v wcv wvc)
+    (hw : ∀ m ∈ wvc, isCtl m = true) (hl : l.internal = true) :
+    ReqInv c' v (wcv ++ out) inW' := by
+  cases l <;> simp [Lab.internal] at hl <;> simp only [stepSide] at hs
+  case dispConn =>
+    split at hs
+    · split at hs
+      · rename_i ev rest hq
+        split at hs
+        · rename_i e' m he
+          simp only [Option.some.injEq, Prod.mk.injEq] at hs
+          obtain ⟨rfl, rfl, rfl⟩ := hs
+          refine req_client_evt c v wcv _ ev e' m _ hi he rfl hi.noReqInPortQ ?_
+          simp only [hq]
+          cases hev : isConnReq ev <;> simp [List.filter, hev]
+        · simp at hs
+      · simp at hs
+    · simp at hs
+  case dispPort =>
+    split at hs
+    · split at hs
+      · rename_i ev rest hq
+        split at hs
+        · rename_i e' m he
+          simp only [Option.some.injEq, Prod.mk.injEq] at hs
+          obtain ⟨rfl, rfl, rfl⟩ := hs
+          have hne : isConnReq ev = false := hi.noReqInPortQ ev (by rw [hq]; simp)
+          refine req_client_evt c v wcv _ ev e' m _ hi he (by simp) ?_ (by simp [hne])
+          intro x hx; simp only [evtHandles_portQ] at hx
+          exact hi.noReqInPortQ x (by rw [hq]; simp [hx])
+        · simp at hs
+      · simp at hs
+    · simp at hs
+  case dispListener =>
+    split at hs
+    · split at hs
+      · rename_i e' m he
+        simp only [Option.some.injEq, Prod.mk.injEq] at hs
+        obtain ⟨rfl, rfl, rfl⟩ := hs
+        exact req_client_evt c v wcv _ _ e' m _ hi he rfl hi.noReqInPortQ (by simp [isConnReq])
+      · simp at hs
+    · simp at hs
+  case goodbye =>
+    split at hs
+    · split at hs
+      · rename_i e' m he
+        simp only [Option.some.injEq, Prod.mk.injEq] at hs
+        obtain ⟨rfl, rfl, rfl⟩ := hs
+        exact req_client_evt c v wcv _ _ e' m _ hi he rfl hi.noReqInPortQ (by simp [isConnReq])
+      · simp at hs
+    · simp at hs
+  case deliver =>
+    split at hs
+    · simp at hs
+    · split at hs
+      · rename_i m rest
+        split at hs
+        · rename_i e' em he
+          simp only [Option.some.injEq, Prod.mk.injEq] at hs
+          obtain ⟨rfl, rfl, rfl⟩ := hs
+          simp only [List.append_nil]
+          exact req_client_rx c v wcv _ m e' em _ hi (hw m (by simp)) he (by simp) (by simp) (by simp)
+        · simp at hs
+      · simp at hs
+
 end Remoc.Table.Sys
